@@ -204,33 +204,76 @@ Qed.
 
 (* ------------------------------------------------------------------ request -> query string *)
 
-Lemma lf_escape_plain q : forallb lf_unescaped_in_query q = true -> lf_escape_query q = q.
+Lemma lf_unescaped_not_percent c : lf_unescaped_in_query c = true -> (c =? 37) = false.
 Proof.
-  induction q as [|c tl IH]; [reflexivity|]. cbn [forallb lf_escape_query].
-  intros H. apply andb_true_iff in H. destruct H as [H1 H2]. rewrite H1, IH by exact H2. reflexivity.
+  intros H. destruct (c =? 37) eqn:E; [|reflexivity].
+  assert (c = 37) by lia. subst c. vm_compute in H. discriminate.
 Qed.
 
-(* one Uri-Query option made of bytes that need no escaping reaches the printer unchanged; no
-   option: no filter.  The GET handler then delivers the listing restricted by that filter. *)
-Theorem lf_handle_get_listing rs :
-  lf_table_ok rs = true ->
-  (len (lf_listing (lf_selected None rs)) <= lf_status_max ->
-   lf_handle_get rs [] = Lf205 (lf_listing (lf_selected None rs))) /\
-  (forall q, q <> [] -> forallb lf_unescaped_in_query q = true ->
-   len (lf_listing (lf_selected (Some q) rs)) <= lf_status_max ->
-   lf_handle_get rs [q] = Lf205 (lf_listing (lf_selected (Some q) rs))).
+Lemma lf_hexval_digit d : 0 <= d < 16 -> lf_hexval (lf_hex_digit d) = Some d.
 Proof.
-  intros Hok. split.
-  - intros Hm. unfold lf_handle_get. cbn [lf_get_query map lf_join_amp].
-    apply lf_get_equals_listing; assumption.
-  - intros q Hq Hp Hm. unfold lf_handle_get, lf_get_query. cbn [map lf_join_amp].
-    rewrite lf_escape_plain by exact Hp. destruct q; [contradiction|].
-    apply lf_get_equals_listing; assumption.
+  intros H. unfold lf_hex_digit, lf_hexval. destruct (d <? 10) eqn:E.
+  - replace ((48 <=? 48 + d) && (48 + d <=? 57)) with true by lia. f_equal. lia.
+  - replace ((48 <=? 55 + d) && (55 + d <=? 57)) with false by lia.
+    replace ((65 <=? 55 + d) && (55 + d <=? 70)) with true by lia. f_equal. lia.
 Qed.
 
-(* in general the handler filters with the escaped text of the options *)
-Theorem lf_handle_get_general rs opts :
-  lf_table_ok rs = true ->
-  len (lf_listing (lf_selected (lf_get_query opts) rs)) <= lf_status_max ->
-  lf_handle_get rs opts = Lf205 (lf_listing (lf_selected (lf_get_query opts) rs)).
-Proof. intros. unfold lf_handle_get. apply lf_get_equals_listing; assumption. Qed.
+(* the handler's decoding undoes coap_get_query's escaping, whatever follows *)
+Lemma lf_unescape_escape a : forall rest,
+  wfb a -> lf_unescape_query (lf_escape_query a ++ rest) = a ++ lf_unescape_query rest.
+Proof.
+  induction a as [|c tl IH]; intros rest Hw; [reflexivity|].
+  apply wfb_cons in Hw. destruct Hw as [Hc Hw]. unfold is_byte in Hc.
+  cbn [lf_escape_query]. destruct (lf_unescaped_in_query c) eqn:E.
+  - cbn [app lf_unescape_query]. rewrite (lf_unescaped_not_percent c E). rewrite IH by exact Hw. reflexivity.
+  - cbn [app lf_unescape_query]. cbn [Z.eqb Pos.eqb].
+    rewrite !lf_hexval_digit by lia. rewrite IH by exact Hw. cbn [app]. f_equal. lia.
+Qed.
+
+Lemma lf_unescape_join opts :
+  Forall wfb opts ->
+  lf_unescape_query (lf_join_amp (map lf_escape_query opts)) = lf_join_amp opts.
+Proof.
+  induction opts as [|q tl IH]; intros H; [reflexivity|].
+  inversion H as [|? ? Hq Htl]; subst. cbn [map lf_join_amp].
+  destruct tl as [|q2 tl2].
+  - cbn [map]. rewrite <- (app_nil_r (lf_escape_query q)). rewrite lf_unescape_escape by exact Hq.
+    cbn [lf_unescape_query]. apply app_nil_r.
+  - cbn [map]. cbn [map] in IH. rewrite lf_unescape_escape by exact Hq.
+    cbn [lf_unescape_query Z.eqb Pos.eqb]. rewrite IH by exact Htl. reflexivity.
+Qed.
+
+Lemma lf_unescape_nonnil x t : lf_unescape_query (x :: t) <> [].
+Proof.
+  cbn [lf_unescape_query]. destruct (x =? 37); [|discriminate].
+  destruct t as [|h [|l t2]]; try discriminate.
+  destruct (lf_hexval h); [destruct (lf_hexval l)|]; discriminate.
+Qed.
+
+Lemma lf_decoded_query opts :
+  Forall wfb opts ->
+  match lf_get_query opts with Some q => Some (lf_unescape_query q) | None => None end =
+  lf_raw_query opts.
+Proof.
+  intros H. unfold lf_get_query, lf_raw_query. rewrite <- (lf_unescape_join opts H).
+  destruct (lf_join_amp (map lf_escape_query opts)) as [|x t] eqn:E; [reflexivity|].
+  destruct (lf_unescape_query (x :: t)) eqn:E2; [|reflexivity].
+  exfalso. exact (lf_unescape_nonnil x t E2).
+Qed.
+
+(* the whole GET path: the filter applied is the bytes of the request's Uri-Query options *)
+Theorem lf_handle_get_listing rs opts :
+  lf_table_ok rs = true -> Forall wfb opts ->
+  len (lf_listing (lf_selected (lf_raw_query opts) rs)) <= lf_status_max ->
+  lf_handle_get rs opts = Lf205 (lf_listing (lf_selected (lf_raw_query opts) rs)).
+Proof.
+  intros Hok Hw Hm. unfold lf_handle_get. rewrite (lf_decoded_query opts Hw).
+  apply lf_get_equals_listing; assumption.
+Qed.
+
+(* one option q: filter q; no option: no filter *)
+Lemma lf_raw_query_single q : q <> [] -> lf_raw_query [q] = Some q.
+Proof. intros H. unfold lf_raw_query. cbn [lf_join_amp]. destruct q; [contradiction|reflexivity]. Qed.
+
+Lemma lf_raw_query_none : lf_raw_query [] = None.
+Proof. reflexivity. Qed.
